@@ -3,6 +3,7 @@ package props
 import (
 	"bytes"
 	"fmt"
+	"math"
 	"math/rand"
 	"runtime"
 	"strings"
@@ -403,6 +404,61 @@ func c16Run(c *mon.Ctx) {
 		c.CountN("concurrent_parses", int64(G*400))
 		opsDone += int64(G * 400)
 	}
+	// part D: child searches held open - every goroutine stays inside the iterator of a Search on a collection
+	// until all the others are inside theirs too (bounded), so that as many searches as goroutines are in flight at
+	// once; each must still visit what it visits when run alone
+	{
+		everything := geometry.Rect{Min: geometry.Point{X: math.Inf(-1), Y: math.Inf(-1)}, Max: geometry.Point{X: math.Inf(1), Y: math.Inf(1)}}
+		visit := func(o geojson.Object, each func()) int {
+			n := 0
+			o.(geojson.Collection).Search(everything, func(geojson.Object) bool {
+				n++
+				if n == 1 {
+					each()
+				}
+				return true
+			})
+			return n
+		}
+		var cols []int
+		for i, o := range S {
+			if col, ok := o.(geojson.Collection); ok && !o.Empty() && len(col.Children()) > 0 {
+				cols = append(cols, i)
+			}
+		}
+		for rep := 0; rep < 3 && len(cols) > 0; rep++ {
+			const G = 96
+			runtime.GOMAXPROCS([]int{16, 2, 16}[rep])
+			F := recipe.instantiate()
+			var inside atomic.Int32
+			got := make([]int, G)
+			var wg sync.WaitGroup
+			for g := 0; g < G; g++ {
+				wg.Add(1)
+				go func(g int) {
+					defer wg.Done()
+					defer func() { recover() }()
+					got[g] = visit(F[cols[(g+rep)%len(cols)]], func() {
+						inside.Add(1)
+						for spins := 0; inside.Load() < G && spins < 300000; spins++ {
+							runtime.Gosched()
+						}
+					})
+				}(g)
+			}
+			wg.Wait()
+			for g := 0; g < G; g++ {
+				i := cols[(g+rep)%len(cols)]
+				want := visit(S[i], func() {})
+				c.Count("held_open_searches")
+				if got[g] != want {
+					c.Violation("nondeterministic Search(held open)", "a child search visited a different number of children while other searches were in flight than when run alone",
+						c16Case{Round: rep, Phase: "held-open searches", Op: "Collection.Search", Receiver: recipe.names[i], Alone: fmt.Sprint(want, " children"), Got: fmt.Sprint(got[g], " children")})
+				}
+			}
+			opsDone += G
+		}
+	}
 	c.CountN("concurrent_ops", opsDone)
 	c.CountN("goroutines_per_round", 32)
 	c.EvalN(int(opsDone))
@@ -429,7 +485,7 @@ func init() {
 		Rule:        "a seeded pool recipe of ~56 objects of all 12 kinds (indexed and unindexed geometry, indexed children, parsed under option sets, 200-vertex shapes, a moved shape, circles) is instantiated once for a sequential baseline (every one of 22 operation groups on every (receiver, argument) pair) and once per round, never touched before the round; per round 32 goroutines released by a spin barrier first hit every object at the same moment (convoy, as receiver and as argument, so the first use of each object is contended) and then run seeded mixed operations on a few hot receivers (scatter); GOMAXPROCS alternates between 2 and 16; every concurrent result must equal the result of the same call run alone; the Go race detector watches the whole run. Non-trivial = distinct (operation group, receiver kind).",
 		Assumptions: []string{"the race detector only sees accesses the workload performs; every exported method of every kind is executed", "the sequential specification is a pure function of the operation, so linearizability degenerates to per-operation equality with the result obtained alone"},
 		Run:         c16Run,
-		MustSee:     []string{"concurrent_parses", "rounds", "concurrent_ops", "baseline_results", "rounds_gomaxprocs_2", "rounds_gomaxprocs_16"},
+		MustSee:     []string{"held_open_searches", "concurrent_parses", "rounds", "concurrent_ops", "baseline_results", "rounds_gomaxprocs_2", "rounds_gomaxprocs_16"},
 		Race:        true,
 		Procs:       4,
 		HangSecs:    300,
